@@ -286,6 +286,23 @@ fn run_blk(ctx: &Ctx, blk: &Blk, tag: u64, sink: &mut Sink, judge: &dyn Fn(&Sche
             let (n, _) = dfs(&base, *cap, sink, judge);
             sink.add("schedules", n);
             sink.add("deep_backlog_schedules", n);
+            // the capped enumeration only varies the tail of the run: add seeded random schedules
+            // (a switch at about every third decision point) of the same program
+            let mut rng = Rng::from_parts(ctx.seed, &[tag, 78]);
+            for _ in 0..(*cap / 6).max(3) {
+                if !sink.admit() {
+                    return;
+                }
+                let mut case = base.clone();
+                case.preempt_bound = u32::MAX;
+                case.mode = Mode::Random(rng.next());
+                if let Some(o) = run_sched(&case) {
+                    let v = judge(&case, &o, sink);
+                    sink.count("random_schedules");
+                    sink.count("deep_backlog_schedules");
+                    sink.record(v, Some(o.trace_hash), &|| sched_case_with_obs(&case, &o));
+                }
+            }
         }
         Blk::EnumDrop { chunk, gzip, prog, drop_after, cap, bound } => {
             let mut base = SchedCase::new(*chunk, *gzip, prog.clone(), WakerPolicy::Same);
